@@ -2422,12 +2422,6 @@ M("s17-quiet-if-ne-form", "C05", "quiet", "src/check.rs",
             } else {
                 expr.ty = then_expr.ty.clone();
             }""", "behaviour-preserving: the equality written with != and else")
-M("m6-number-covers-containing-range", "C08", "fire M6", "src/check.rs",
-  """            PatternEnum::NumSigned(n, _) if n == min && n == max => vec![tail.collect()],""",
-  """            PatternEnum::NumSigned(n, _) if (min..=max).contains(&n) => vec![tail.collect()],""", "seed C17-h (one arm): a signed number pattern covers every constructor range that contains it")
-M("m6-quiet-transitive-equality", "C08", "quiet", "src/check.rs",
-  """            PatternEnum::NumSigned(n, _) if n == min && n == max => vec![tail.collect()],""",
-  """            PatternEnum::NumSigned(n, _) if min == max && n == min => vec![tail.collect()],""", "behaviour-preserving: n == min == max written transitively")
 M("l8-ok-despite-recorded-error", "C09", "fire L8", "src/parse.rs",
   """                Ok(literal) if parser.errors.is_empty() => Ok(literal),""",
   """                Ok(literal) if parser.tokens.peek().is_none() => Ok(literal),""", "seed C09-h (shape): Ok does not depend on the recorded errors")
@@ -2467,4 +2461,17 @@ M("t15-range-suffix-unchecked", "C17", "fire T15", "src/check.rs",
                     expect_pattern_in_range(ty, *from as i128, *to as i128, meta)?;""",
   """                    expect_pattern_in_range(ty, *from as i128, *to as i128, meta)?;""", "the suffix of an unsigned range pattern is not compared with the matched type")
 REVERT("revert-factoring-folds", "C15", "fire U1", "b15ba9c", "pre-fix tree: the AND-factoring rewrite of push_xor emits its two gates raw")
+REVERT("revert-missing-cases", "C08", "fire M2 M7", "8fd3338", "pre-fix tree: overlapping signed pieces; compound constructors wrap the whole witness stack")
+M("m7-struct-drops-rest", "C08", "fire M7", "src/check.rs",
+  """                                Type::Struct(struct_name.clone()),
+                                meta,
+                            )];
+                            witness.extend(rest);""",
+  """                                Type::Struct(struct_name.clone()),
+                                meta,
+                            )];
+                            drop(rest);""", "a struct constructor drops the columns behind it when a missing case is rebuilt")
+M("m2-quiet-number-covers-containing-piece", "C08", "quiet", "src/check.rs",
+  """            PatternEnum::NumSigned(n, _) if n == min && n == max => vec![tail.collect()],""",
+  """            PatternEnum::NumSigned(n, _) if (min..=max).contains(&n) => vec![tail.collect()],""", "seed C17-h on the current tree: behaviour-preserving since the signed pieces are disjoint (8fd3338) - a number is a split point, so the only piece that contains it is its own singleton")
 
